@@ -64,10 +64,12 @@ def commentBody (body : Bytes) : Prop :=
   ∀ i, i < body.length →
     ¬((body ++ [45, 45]).getD i 0 = 45 ∧ (body ++ [45, 45]).getD (i + 1) 0 = 45 ∧ (body ++ [45, 45]).getD (i + 2) 0 = 62)
 
-/-- body of a processing instruction the theorem covers: no `<`, and no `?>` (a `?` is not followed
-    by `>`, where the `?` of the closing `?>` counts as following the last byte) -/
+/-- body of a processing instruction: the instruction `<?body?>` ends at its closing `?>`, i.e. no `?>`
+    begins inside the body (a `?` is not followed by `>`, where the `?` of the closing `?>` counts as
+    following the last byte).  Nothing else is demanded: `<`, `<!--`, `>`, lone `?`, CR, LF, CRLF,
+    white space … are all allowed (every XML 1.0 processing instruction qualifies). -/
 def piBody (body : Bytes) : Prop :=
-  ∀ i, i < body.length → body.getD i 0 ≠ 60 ∧ (body.getD i 0 = 63 → (body ++ [63]).getD (i + 1) 0 ≠ 62)
+  ∀ i, i < body.length → body.getD i 0 = 63 → (body ++ [63]).getD (i + 1) 0 ≠ 62
 
 /-- serialisation of a prologue: processing instructions `<?body?>`, each followed by white space -/
 def prologue : List (Bytes × Bytes) → Bytes
